@@ -119,3 +119,13 @@ Theorem C17_source_impl_methods :
   methods_of "Deserialize<'de> for GenericArray<T,N>" = Some ["deserialize"].
 Proof. repeat split. Qed.
 
+
+(* ---- tier T3: the BODY of GAVisitor::visit_seq as regenerated on every run (coq/gen/GenSerde.v: the
+   up-front hint arm, the fill loop with `?` and `break`, the fullness test with the guarded surplus
+   probe and the successful return, the final Err), run by the interpreter of SerdeProg.v over an
+   arbitrary scripted SeqAccess, IS the model's visit_seq: result, number of next_element calls and
+   destructor runs ---- *)
+From GA Require Import Pipe SerdeProg SerdeTie.
+From GAGen Require Import GenSerde.
+Theorem C17_source_visit_seq : forall n s, vrun n s gen_visit_seq = Some (visit_seq n s).
+Proof. exact tie_visit_seq. Qed.
